@@ -75,8 +75,10 @@ InitWith(c) ==
   /\ hist = <<>> /\ qc = <<>>
   /\ obs = [ev |-> "none"]
 
-Init == \E c \in [shape : Shapes, cycle : Cycles, sc : ScPats, lr : LrPats,
-                  cl : CLevels, maxit : MaxIts, nu : NuSets] : InitWith(c)
+Init == \E sh \in Shapes, cy \in Cycles, scp \in ScPats, lrp \in LrPats,
+           c \in CLevels, mi \in MaxIts, n \in NuSets :
+           InitWith([shape |-> sh, cycle |-> cy, sc |-> scp, lr |-> lrp,
+                     cl |-> c, maxit |-> mi, nu |-> n])
 
 (* -- call of multigrid() at level 0 --------------------------------------- *)
 Start ==
